@@ -29,6 +29,12 @@ CANCEL = [wl("diamond"), wl("multitask"), wl("synthetic"), wl("poll", 1), wl("su
 
 def jobs(tier, seed):
     js = [{"label": "table-drift", "drift": True}]
+    for name in E3_SCEN:
+        bound = 1 if tier == "quick" else 2
+        shards = 1 if bound == 1 else 4
+        for k in range(shards):
+            js.append({"label": f"e3 {name}|preemptions<={bound}|shard{k}/{shards}", "scenario": name, "bound": bound,
+                       "shard": [k, shards]})
     if tier == "quick":
         for spec in SMALL:
             js.append({"label": f"{spec[0]}{spec[1]}|noack1", "wl": spec, "budget": {"noack": 1}})
@@ -80,6 +86,42 @@ def run_crash(job):
             "audit_rows": eng.audit_rows, "crash_points": len(snaps)}
 
 
+E3_SCEN = {
+    "2xStartStage(D)": ("diamond_e", [], ["StartStage:D"], [2, 2]),
+    "CompleteStage(B)||CompleteStage(C)": ("diamond_e", [], ["CompleteStage:B", "CompleteStage:C", "StartStage:D"], [2, 2]),
+    "CancelStage(C)||CompleteTask(C)": ("fail_branch_slow", [], ["CancelStage:C", "CompleteTask:C"], [1, 1]),
+    "mutex StartStage(X)||StartStage(Y)": ("mutex2", [], ["StartStage:X", "StartStage:Y"], [1, 1]),
+}
+
+
+def run_e3(job):
+    """E3: every durable status change written by racing handlers (and by the drain after them)."""
+    import checks.C04  # noqa: F401  registers diamond_e
+    import checks.C07  # noqa: F401  registers fail_branch_slow
+    from vlib.e3 import run_engine_scenario
+    from vlib.monitors import check_audit_rows
+
+    wname, args, skip, scripts = E3_SCEN[job["scenario"]]
+    workload = make_workload(wl(wname, *args))
+
+    def oracle(ctx):
+        rows = [(0, r[0], r[1], r[2], r[3]) for r in ctx["audit"]]
+        return check_audit_rows(rows, None, {})
+
+    s = run_engine_scenario(workload, skip, scripts, oracle, job["bound"], shard=job.get("shard"),
+                            time_cap=job.get("time_cap", 1200))
+    viols, seen = [], set()
+    for v in s.pop("_violations"):
+        v["signature"] = f"e3:{v['sig']}@{job['scenario']}"
+        if v["signature"] not in seen:
+            seen.add(v["signature"])
+            viols.append(v)
+    s["violations"] = viols
+    s["job_spec"] = job
+    s["states"] = s["transitions"] = s.get("points", 0)
+    return s
+
+
 def build(job):
     w = world()
     workload = make_workload(job["wl"])
@@ -103,6 +145,8 @@ def run_job(job):
         return {"states": 1, "transitions": 1, "violations": v, "samples": [], "job_spec": job}
     if job.get("crash"):
         return run_crash(job)
+    if job.get("scenario"):
+        return run_e3(job)
     ex = build(job).run()
     res = result_from(ex, "e1")
     res["job_spec"] = job
